@@ -7,7 +7,7 @@ func init() {
 		ID:         "C19",
 		Level:      "other",
 		Technique:  "access-discipline rules over lazily initialised shared state: atomic-or-locked access to initialisation flags, publish-last under the mutex, once-guarded state reached only through the once, unsynchronised writes in escaping closures, checked assertions on placeholder-carrying sync.Maps, registry lock prologues (static)",
-		Explain:    "Decides structural necessary conditions of safe concurrent first use: (1) every initialisation flag / switch that is accessed atomically anywhere is accessed atomically everywhere or with its mutex held, and is set non-zero only under the mutex as the last write of the initialisation (MessageInfo.initDone, File.once, ExtensionInfo.init, lazy extension atomicOnce); (2) fields and captured variables assigned inside a once.Do closure (the lazily built descriptor indexes, lazily resolved imports) are accessed outside it only through the method that runs the once or after it; (3) closures that are stored into descriptor fields or returned never assign captured variables outside once.Do or a mutex; (4) values loaded from sync.Maps that can hold an in-progress placeholder are asserted to their final basic type with a tested comma-ok; (5) descriptors' lazily built L2 level is read only through lazyInit methods that synchronise with File.lazyInit; (6) every read of a lazily built MessageInfo table outside the builder happens after mi.init() (dominating call, or in every static caller); (7) every protoregistry method touches the tables only after the global lock prologue with the right kind of lock.",
+		Explain:    "Decides structural necessary conditions of safe concurrent first use: (1) every initialisation flag / switch that is accessed atomically anywhere is accessed atomically everywhere or with its mutex held, and is set non-zero only under the mutex as the last write of the initialisation (MessageInfo.initDone, File.once, ExtensionInfo.init, lazy extension atomicOnce); (2) fields and captured variables assigned inside a once.Do closure (the lazily built descriptor indexes, lazily resolved imports) are accessed outside it only through the method that runs the once or after it; (3) closures that are stored into descriptor fields or returned never assign captured variables outside once.Do or a mutex; (4) values loaded from sync.Maps that can hold an in-progress placeholder are asserted to their final basic type with a tested comma-ok; (5) descriptors' lazily built L2 level is read only through lazyInit methods that synchronise with File.lazyInit; (6) every read of a lazily built MessageInfo table outside the builder happens after mi.init() (dominating call, or in every static caller); (7) every protoregistry method touches the tables only after the global lock prologue with the right kind of lock. Also: after a miss, the legacy type/descriptor caches (sync.Map) are published with LoadOrStore and the stored value is returned, so concurrent first users observe one identity; two reviewed exceptions (a per-number enum wrapper cache whose values are compared by value; a bool cache written under its mutex).",
 		NotCovered: "deadlock freedom and lock ordering; races through reflect/unsafe pointer arithmetic; readers of MessageInfo's tables that are reached only through function values (dynamic calls) are judged by the init() call in their own body; memory-model subtleties beyond the access discipline.",
 		Quick:      all("./internal/impl", "./internal/filedesc", "./internal/filetype", "./reflect/protoregistry", "./reflect/protodesc", "./types/dynamicpb"),
 		Thorough:   all("./..."),
